@@ -188,15 +188,21 @@ def judge_applies(res, sub, rdocs, fdoc, expect_applies, label):
             add_violation(res, f"{sub}:{'filter-not-applied' if exp_app else 'filter-applied-to-untargeted-rule'}:{label.split('/')[0]}", dict(case, title=title), exp_app, {"base": base.get(title), "filtered": out.get(title)})
         elif changed:
             # applied: meaning must be base AND filter
-            try:
-                got = Q.qparse(out[title][0], K)
-                b = Q.qparse(base[title][0], K)
-                ff = RR.condition_formula(("not", ("leaf", ("n", "flt"))), {k: v for k, v in fdoc["filter"].items() if k != "rules"}, {})
-                eq, cex = F.equivalent(("and", (b, ff)), got)
-                if not eq:
-                    add_violation(res, f"{sub}:applied-but-not-equivalent", dict(case, title=title), "base AND filter", {"query": out[title][0], "cex": cex})
-            except Q.QParseError as e:
-                add_violation(res, f"{sub}:query-not-in-grammar", dict(case, title=title), "parsable", str(e)[:150])
+            if len(out[title]) != len(base[title]):
+                add_violation(res, f"{sub}:query-count-changed-by-filter", dict(case, title=title), len(base[title]), out[title])
+                continue
+            for qi in range(len(out[title])):  # every condition of the rule carries the filter
+                try:
+                    got = Q.qparse(out[title][qi], K)
+                    b = Q.qparse(base[title][qi], K)
+                    ff = RR.condition_formula(("not", ("leaf", ("n", "flt"))), {k: v for k, v in fdoc["filter"].items() if k != "rules"}, {})
+                    eq, cex = F.equivalent(("and", (b, ff)), got)
+                    if not eq:
+                        add_violation(res, f"{sub}:applied-but-not-equivalent" + (":later-condition" if qi else ""), dict(case, title=title, condition_index=qi), "base AND filter", {"query": out[title][qi], "cex": cex})
+                        break
+                except Q.QParseError as e:
+                    add_violation(res, f"{sub}:query-not-in-grammar", dict(case, title=title), "parsable", str(e)[:150])
+                    break
 
 
 def judge_failing_filter(res, pos, nrules, via):
@@ -342,6 +348,13 @@ def run_shard(shard, tier, seed):
             f = filter_doc(["flt"], "not flt", rules=rules)
             for extra in ([], [corr]):
                 judge_applies(res, "R", [r1, r2] + extra, f, targets, f"rules/{rules!r}/{'with-corr' if extra else 'plain'}")
+        # rules with several conditions: the filter goes into each of them
+        for conds in (["sel", "sel2"], ["sel and not sel2", "sel2", "1 of sel*"], ["sel", "sel", "not sel2"]):
+            for rules in ("any", [RID + "1"]):
+                rm = rule_doc(["sel", "sel2"], conds, n=1)
+                r2 = rule_doc(["sel"], "sel", n=2)
+                f = filter_doc(["flt"], "not flt", rules=rules)
+                judge_applies(res, "R", [rm, r2], f, {"rule1": True, "rule2": rules == "any"}, f"multi-condition/{len(conds)}/{rules!r}")
         for nrules in (1, 2, 3, 4):
             for pos in range(nrules):
                 for via in ("bad-last", "bad-first"):
